@@ -79,3 +79,75 @@ Proof.
   intros W p Hwf Hp. unfold CallByCall. apply (collect_determines_calls _ (S (S (length (content root levels bstore)))) iter_new).
   apply (R_prefix_bwd ld root levels bstore W); [exact Hwf|exact Hp|lia].
 Qed.
+
+(* ---- composed with the fault theorems of C12: over the loader that fails its j-th load, every call
+   returns what the specification says or the run of calls ends in exactly the injected error ---- *)
+From Coq Require Import NArith.
+From Grenad.model Require Import IoModel.
+
+Definition FaultCallByCall (fnext : iter -> outcome (iter * option entry)) (l : list entry) : Prop :=
+  (forall n, (n <= length l)%nat ->
+     (exists it', calls fnext n iter_new = Done (it', map Some (firstn n l))) \/
+     calls fnext n iter_new = Fail (EIo IO_INJECTED)) /\
+  ((exists it', calls fnext (S (length l)) iter_new = Done (it', map Some l ++ [None])) \/
+   calls fnext (S (length l)) iter_new = Fail (EIo IO_INJECTED)).
+
+Lemma calls_fault_cases ld j root levels
+  (mk : (cstate -> op -> outcome (cstate * option entry)) -> iter -> outcome (iter * option entry)) n it rs :
+  (forall it', FaultSplit ld j root levels mk n it it' rs) ->
+  (exists it', calls (mk (cstep ld root levels)) n it = Done (it', rs)) ->
+  (exists it', calls (mk (cstep (faulty_load ld j) root levels)) n it = Done (it', rs)) \/
+  calls (mk (cstep (faulty_load ld j) root levels)) n it = Fail (EIo IO_INJECTED).
+Proof.
+  intros H [it' E]. destruct (H it' E) as (Hle & Hs & Hf).
+  destruct (N.ltb_spec j (cs_loads (it_st it))) as [Hlt|Hge]; [left; exists it'; apply Hs; left; exact Hlt|].
+  destruct (N.leb_spec (cs_loads (it_st it')) j) as [Hle2|Hgt]; [left; exists it'; apply Hs; right; exact Hle2|].
+  right. apply Hf. split; assumption.
+Qed.
+
+Lemma fault_call_by_call ld j root levels
+  (mk : (cstate -> op -> outcome (cstate * option entry)) -> iter -> outcome (iter * option entry)) l :
+  (forall n it it' rs, FaultSplit ld j root levels mk n it it' rs) ->
+  CallByCall (mk (cstep ld root levels)) l -> FaultCallByCall (mk (cstep (faulty_load ld j) root levels)) l.
+Proof.
+  intros H [Hp He]. split.
+  - intros n Hn. apply (calls_fault_cases ld j root levels mk); [intro it'; apply H|apply Hp; exact Hn].
+  - apply (calls_fault_cases ld j root levels mk); [intro it'; apply H|exact He].
+Qed.
+
+Theorem range_fault_calls ld j root levels bstore : wf_store ld root levels bstore -> forall lo hi,
+  FaultCallByCall (range_next (cstep (faulty_load ld j) root levels) lo hi) (range_spec (content root levels bstore) lo hi).
+Proof.
+  intros W lo hi.
+  exact (fault_call_by_call ld j root levels (fun s => range_next s lo hi) _
+           (fun n it it' rs => range_iterator_fault ld j root levels lo hi n it it' rs)
+           (range_calls ld root levels bstore W lo hi)).
+Qed.
+
+Theorem rev_range_fault_calls ld j root levels bstore : wf_store ld root levels bstore -> forall lo hi,
+  FaultCallByCall (rev_range_next (cstep (faulty_load ld j) root levels) lo hi) (rev (range_spec (content root levels bstore) lo hi)).
+Proof.
+  intros W lo hi.
+  exact (fault_call_by_call ld j root levels (fun s => rev_range_next s lo hi) _
+           (fun n it it' rs => rev_range_iterator_fault ld j root levels lo hi n it it' rs)
+           (rev_range_calls ld root levels bstore W lo hi)).
+Qed.
+
+Theorem prefix_fault_calls ld j root levels bstore : wf_store ld root levels bstore -> forall p,
+  FaultCallByCall (prefix_next (cstep (faulty_load ld j) root levels) p) (prefix_spec (content root levels bstore) p).
+Proof.
+  intros W p.
+  exact (fault_call_by_call ld j root levels (fun s => prefix_next s p) _
+           (fun n it it' rs => prefix_iterator_fault ld j root levels p n it it' rs)
+           (prefix_calls ld root levels bstore W p)).
+Qed.
+
+Theorem rev_prefix_fault_calls ld j root levels bstore : wf_store ld root levels bstore -> forall p,
+  Forall (fun e => wf_bytes (fst e)) (content root levels bstore) -> wf_bytes p ->
+  FaultCallByCall (rev_prefix_next (cstep (faulty_load ld j) root levels) p) (rev (prefix_spec (content root levels bstore) p)).
+Proof.
+  intros W p Hwf Hp.
+  exact (fault_call_by_call ld j root levels (fun s => rev_prefix_next s p) _
+           (fun n it it' rs => rev_prefix_iterator_fault ld j root levels p n it it' rs)
+           (rev_prefix_calls ld root levels bstore W p Hwf Hp)).
+Qed.
